@@ -317,14 +317,32 @@ class FWStub:
     def get_trust_region_step(self, options): return Vec("normal"), Vec("tangential")
 
     def get_index_to_remove(self, x_new=None):
+        # contract proved by framework.get_index_to_remove: with a new point the best index is never returned; without one it is
+        # returned only together with distance 0
         if self.c.choose("get_index_to_remove", 2, ["ok", "linalg"]):
             raise np.linalg.LinAlgError
         k = SI(z3.Int(self.c.fresh_name("k_new")))
         d = SF.fresh("dist_new", finite=True)
         self.c.assume(d.r >= 0)
+        best = self.best_index_term()
+        if x_new is None:
+            self.c.assume(z3.Implies(k.t == best, d.r == 0))
+        else:
+            self.c.assume(k.t != best)
+        self._last_removal = (k, d)
         return k, d
 
+    def best_index_term(self):
+        """ghost: the current best index (a fresh value each time set_best_index may have changed it)"""
+        if getattr(self, "_best", None) is None:
+            self._best = z3.Int(self.c.fresh_name("best_index"))
+        return self._best
+
+    def _best_may_change(self):
+        self._best = None
+
     def increase_penalty(self, step):
+        self._best_may_change()
         old = self.penalty
         self.penalty = SF.fresh("penalty", nonan=True)
         self.c.assume(self.penalty.r >= old.r)
@@ -341,7 +359,7 @@ class FWStub:
 
     def get_second_order_correction_step(self, step, options): return Vec("soc")
     def get_reduction_ratio(self, step, f, cub, ceq): return SF.fresh("ratio", finite=True)
-    def set_best_index(self): pass
+    def set_best_index(self): self._best_may_change()
     def set_multipliers(self, x): pass
 
     def update_radius(self, step, ratio):        # contract C18.update_radius
@@ -359,12 +377,21 @@ class FWStub:
         c.assume(self._rad.r >= self._res.r)
 
     def decrease_penalty(self):
+        self._best_may_change()
         old = self.penalty
         self.penalty = SF.fresh("penalty", nonan=True)
         self.c.assume(z3.And(self.penalty.r >= 0, self.penalty.r <= old.r))
 
     def get_geometry_step(self, k_new, options):
         self.c.oblige("C18.minimize.geometry_index_defined", z3.BoolVal(isinstance(k_new, SI)), props=["C18", "C08"])
+        last = getattr(self, "_last_removal", None)
+        if isinstance(k_new, SI) and last is not None:
+            # the point replaced by a geometry step is the one get_index_to_remove chose in this iteration, for the current best point:
+            # unless every interpolation point coincides with the best one (distance 0), it is not the centre of the trust region
+            self.c.oblige("C18.minimize.geometry_step_replaces_the_chosen_point", k_new.t == last[0].t, props=["C18"])
+            self.c.oblige("C18.minimize.geometry_step_never_replaces_the_best_point",
+                          z3.Implies(last[1].r > 0, k_new.t != self.best_index_term()), props=["C18"],
+                          note="the interpolation point chosen for the geometry step is the centre of the trust region")
         if self.c.choose("get_geometry_step", 2, ["ok", "linalg"]):
             raise np.linalg.LinAlgError
         return Vec("geometry")
@@ -423,6 +450,8 @@ class MainLoop(LoopSpec):
         pb.nev = z3.Int(c.fresh_name("nev"))
         pb.trigger = None
         fw._fresh_state()
+        fw._best_may_change()
+        fw._last_removal = None
         out = {k: SI(z3.Int(c.fresh_name(k))) for k in ("n_iter", "n_short_steps", "n_very_short_steps", "n_alt_models")}
         # k_new is None before the first assignment and an index afterwards
         out["k_new"] = None if c.choose("k_new_unset", 2, ["set", "unset"]) else SI(z3.Int(c.fresh_name("k_new")))
